@@ -433,6 +433,36 @@ class AnnealResults(list):
             res = AnnealResults(res)
         return res
 
+    def __setitem__(self, index, result):
+        """__setitem__.
+
+        Same as ``list.__setitem__`` (``index`` can be an integer or a slice),
+        but ``self.best`` is kept up to date.
+
+        Parameters
+        ----------
+        index : int or slice.
+        result : AnnealResult object, or an iterable of them if ``index`` is
+            a slice.
+
+        """
+        super().__setitem__(index, result)
+        self.best = _recompute_best(self)
+
+    def __delitem__(self, index):
+        """__delitem__.
+
+        Same as ``list.__delitem__`` (``index`` can be an integer or a slice),
+        but ``self.best`` is kept up to date.
+
+        Parameters
+        ----------
+        index : int or slice.
+
+        """
+        super().__delitem__(index)
+        self.best = _recompute_best(self)
+
     def clear(self):
         """clear.
 
@@ -631,7 +661,8 @@ class AnnealResults(list):
 
         """
         if isinstance(other, AnnealResults):
-            if other.best < self.best:
+            if other.best is not None and (
+                    self.best is None or other.best < self.best):
                 self.best = other.best
             return super().__iadd__(other)
 
@@ -650,7 +681,8 @@ class AnnealResults(list):
 
         """
         if isinstance(other, AnnealResults):
-            if other.best < self.best:
+            if other.best is not None and (
+                    self.best is None or other.best < self.best):
                 self.best = other.best
             super().extend(other)
         else:
